@@ -51,8 +51,16 @@ func NewStorage(engine, dir string) bttest.Storage {
 }
 
 func NewDriver(engine, dir string) *Driver {
+	return NewDriverOn(engine, dir, NewStorage(engine, dir))
+}
+
+// NewDriverOn builds the service on the given (possibly wrapped) storage.
+func NewDriverOn(engine, dir string, st bttest.Storage) *Driver {
 	d := &Driver{Engine: engine, Dir: dir, Clock: 1_000_000}
-	d.S = bttest.NewVerifServer(NewStorage(engine, dir), func() bigtable.Timestamp { return bigtable.Timestamp(d.Clock) })
+	d.S = bttest.NewVerifServer(st, func() bigtable.Timestamp {
+		yield("clock")
+		return bigtable.Timestamp(d.Clock)
+	})
 	return d
 }
 
